@@ -421,6 +421,8 @@ struct Found {
 }
 
 const BLOCK: u64 = 64;
+/// wall-clock limit of a single run; the slowest legitimate runs take 1-3 s on an idle machine
+const WATCHDOG_SECS: u64 = 120;
 
 static GLOBAL_OPTS: std::sync::OnceLock<Opts> = std::sync::OnceLock::new();
 
@@ -480,13 +482,13 @@ fn start_main_watchdog(check: &dyn Check, opts: &Opts) {
         let stuck = {
             let g = MAIN_SLOT.lock().unwrap();
             match g.as_ref() {
-                Some((scn, since, idx)) if since.elapsed() > Duration::from_secs(60) => Some((scn.clone(), *idx)),
+                Some((scn, since, idx)) if since.elapsed() > Duration::from_secs(WATCHDOG_SECS) => Some((scn.clone(), *idx)),
                 _ => None,
             }
         };
         if let Some((scn, idx)) = stuck {
             let rule = format!("{}.hang_wallclock", id);
-            let detail = "run did not finish within 60 s of wall clock (no seam call budget hit)";
+            let detail = "run did not finish within 120 s of wall clock (no seam call budget hit)";
             if let Some(path) = &opts.replay {
                 println!("VIOLATION property={} replay={}", id, path);
                 println!("  rule={} detail={}", rule, detail);
@@ -532,6 +534,8 @@ pub fn main_for(check: &dyn Check, opts: &Opts) -> i32 {
         (0..opts.workers).map(|_| Mutex::new(None)).collect();
     let finished_workers = AtomicUsize::new(0);
     let hang: Mutex<Option<(String, u64)>> = Mutex::new(None);
+    // wall clock of the slowest single run (reporting only: distance to the watchdog)
+    let slowest_us = AtomicU64::new(0);
 
     // serial prefix (see Check::serial_prefix)
     let prefix = check.serial_prefix().min(total);
@@ -570,6 +574,7 @@ pub fn main_for(check: &dyn Check, opts: &Opts) -> i32 {
             let slots = &slots;
             let done_runs = &done_runs;
             let finished_workers = &finished_workers;
+            let slowest_us = &slowest_us;
             s.spawn(move || {
                 let mut st = Stats::new();
                 let mut local_digests = vec![];
@@ -592,7 +597,9 @@ pub fn main_for(check: &dyn Check, opts: &Opts) -> i32 {
                             let body = json!({"property": check.id(), "engine": check.engine(), "rule": format!("{}.process_killed", check.id()), "detail": "the process died while executing this scenario (abort, e.g. allocation failure)", "minimised": false, "run_index": idx, "scenario": scn});
                             let _ = std::fs::write(inflight_path(&opts.verif_dir, w), body.to_string());
                         }
+                        let t_run = Instant::now();
                         let r = check.run(&scn, &mut st);
+                        slowest_us.fetch_max(t_run.elapsed().as_micros() as u64, Ordering::Relaxed);
                         if risky {
                             let _ = std::fs::remove_file(inflight_path(&opts.verif_dir, w));
                         }
@@ -620,7 +627,7 @@ pub fn main_for(check: &dyn Check, opts: &Opts) -> i32 {
                 finished_workers.fetch_add(1, Ordering::SeqCst);
             });
         }
-        // watchdog (this thread): only fires on a run stuck for > 60 s
+        // watchdog (this thread): only fires on a run stuck for > WATCHDOG_SECS
         loop {
             if finished_workers.load(Ordering::SeqCst) == opts.workers {
                 break;
@@ -629,7 +636,7 @@ pub fn main_for(check: &dyn Check, opts: &Opts) -> i32 {
             for slot in slots.iter() {
                 let g = slot.lock().unwrap();
                 if let Some((scn, since, idx)) = g.as_ref() {
-                    if since.elapsed() > Duration::from_secs(60) {
+                    if since.elapsed() > Duration::from_secs(WATCHDOG_SECS) {
                         *hang.lock().unwrap() = Some((scn.clone(), *idx));
                     }
                 }
@@ -640,7 +647,7 @@ pub fn main_for(check: &dyn Check, opts: &Opts) -> i32 {
                 let scn: Value = serde_json::from_str(&scn).unwrap_or(Value::Null);
                 let v = Violation::new(
                     &format!("{}.hang_wallclock", check.id()),
-                    "run did not finish within 60 s of wall clock (no seam call budget hit)".into(),
+                    "run did not finish within 120 s of wall clock (no seam call budget hit)".into(),
                 );
                 let path = write_replay(check, opts, &scn, &v, idx, false, 0);
                 println!("VIOLATION property={} replay={}", check.id(), path);
@@ -762,6 +769,7 @@ pub fn main_for(check: &dyn Check, opts: &Opts) -> i32 {
             "samples": samples,
             "planned_runs": total,
             "runs_per_hour": if wall > 0.0 { (evaluations as f64 / wall * 3600.0) as u64 } else { 0 },
+            "slowest_run_ms": slowest_us.load(Ordering::Relaxed) / 1000,
             "sim_steps": stats.with_prefix("step."),
             "fault_counts_fired": stats.with_prefix("fault."),
             "probe_counts": stats.with_prefix("probe."),
@@ -813,13 +821,14 @@ pub fn main_for(check: &dyn Check, opts: &Opts) -> i32 {
     }
     if opts.dry {
         println!(
-            "{}: (dry) runs={} nontrivial={} states={} violations={} wall={:.1}s probes={:?}",
+            "{}: (dry) runs={} nontrivial={} states={} violations={} wall={:.1}s slowest_run={}ms probes={:?}",
             check.id(),
             evaluations,
             stats.set_len("nontrivial"),
             stats.set_len("states"),
             n_violation,
             t0.elapsed().as_secs_f64(),
+            slowest_us.load(Ordering::Relaxed) / 1000,
             stats.with_prefix("probe.")
         );
     }
